@@ -13,6 +13,12 @@ CLAIMED = {
          "decides the structural clauses C03-PAIR/SCRATCH/INIT (every hashed-state mutation paired with its key toggle, from-scratch hash and toggles read the same component families, init-only writers), not distinctness of the generated words"),
  "C05": ("typestate abstract interpretation of UciCommand arms + lock-order graph",
          "decides the clauses C05-TS/SET/LOCK/NOBLOCK (no reachable latch wait without a pending set, set-after-bestmove, acyclic lock order, non-blocking arms) assuming the search terminates; not that each go is answered at its limit"),
+ "C08": ("guard dominance w.r.t. the PV-node flag, PV push discipline, mirrored mate-distance conversions, induction-variable provenance",
+         "decides the mechanism clauses C08-PVGUARD/PVPUSH/MATEDIST/DEPTH/MATE (no hash cut-off or forward pruning in PV nodes, guarded PV extension, mate-distance pairing, depth = iteration variable, mate only with zero legal moves), not legality or length of actual lines"),
+ "C09": ("Err-edge reachability at every recursive call site, poll dominance, type-level immutability",
+         "decides the unwinding clauses C09-ERR/POLL/IMM/FALLBACK per call site (so for every poll index at once), not the legality of later searches on the surviving tables"),
+ "C10": ("provenance of yielded values, inequality-guard dominance, forward-only stage typestate",
+         "decides the necessary clauses C10-SRC/DEDUP/STAGE/LOUD (yielded moves come from the generated list or equal one of its elements, hash move never yielded twice, stages only advance, captures-only picker stays loud), not the index arithmetic of the segments"),
  "C12": ("effect analysis over the search call-graph cone, reset-covers-writes field sets, forward slice of clock reads, static-mut writer sets",
          "decides the clauses C12-EFFECT/RESET/PERSEARCH/STATICS/SEED (no nondeterminism source influences a depth-limited search, reset covers every field the search writes, per-search tables, init-only statics, constant seed), not equality of two actual runs"),
  "C13": ("guard dominance for zero-length division, advertise/handle set agreement, constant range relations",
